@@ -345,3 +345,41 @@ package gorm
 //@   in gorm.(*DB).Save
 //@   min-sites 1
 //@   assert hooks-skipped: arg0.Statement.SkipHooks [C13]
+
+//@ # ---------- C08: the soft-delete filter ----------
+//@ spec singleOr(e) = is(e, clause.OrConditions) && len(e.(clause.OrConditions).Exprs) == 1
+//@ spec whereExprs(stmt) = stmt.Clauses["WHERE"].Expression.(clause.Where).Exprs
+
+//@ func (SoftDeleteQueryClause).ModifyStatement
+//@   tags C08
+//@   inline-call (*Statement).AddClause
+//@   assumes where-is-where: has(stmt.Clauses, "WHERE") ==> is(stmt.Clauses["WHERE"].Expression, clause.Where)
+//@   let hadWhere = has(stmt.Clauses, "WHERE")
+//@   let w = whereExprs(stmt)
+//@   let active = !has(stmt.Clauses, "soft_delete_enabled") && !stmt.DB.Statement.Unscoped
+//@   let regroup = hadWhere && exists(k, 0, len(w), singleOr(w[k]))
+//@   loop 1 invariant no-or-unit-so-far: forall(k, 0, iter, !singleOr(w[k]))
+//@   loop 1 invariant nothing-written-yet: objUnchanged(stmt.Clauses)
+//@   ensures unscoped-or-done-is-noop: !active ==> objUnchanged(stmt.Clauses)
+//@   ensures marker-set: active ==> has(stmt.Clauses, "soft_delete_enabled")
+//@   ensures where-present: active ==> has(stmt.Clauses, "WHERE") && is(stmt.Clauses["WHERE"].Expression, clause.Where)
+//@   ensures filter-appended-to-user-conditions: active && hadWhere && !regroup ==> len(whereExprs(stmt)) == len(w) + 1
+//@   ensures or-units-grouped-before-filter: active && regroup ==> len(whereExprs(stmt)) == 2 && is(whereExprs(stmt)[0], clause.AndConditions) && whereExprs(stmt)[0].(clause.AndConditions).Exprs == w
+//@   ensures filter-alone-without-conditions: active && !hadWhere ==> len(whereExprs(stmt)) == 1
+//@   ensures filter-is-last-and-top-level: active ==> is(whereExprs(stmt)[len(whereExprs(stmt)) - 1], clause.Eq) && whereExprs(stmt)[len(whereExprs(stmt)) - 1].(clause.Eq).Column == clause.Column{Table: clause.CurrentTable, Name: sd.Field.DBName} && whereExprs(stmt)[len(whereExprs(stmt)) - 1].(clause.Eq).Value == sd.ZeroValue
+
+//@ ghost filterApplied
+//@ event call (SoftDeleteQueryClause).ModifyStatement
+//@   do filterApplied = 1
+//@ site soft-delete-update-delegates-to-filter
+//@   match call gorm.(SoftDeleteQueryClause).ModifyStatement
+//@   in gorm.(SoftDeleteUpdateClause).ModifyStatement gorm.(SoftDeleteDeleteClause).ModifyStatement
+//@   min-sites 2
+//@   assert same-field-and-zero-value: arg0.Field == sd.Field && arg0.ZeroValue == sd.ZeroValue [C08]
+//@   assert same-statement: arg1 == stmt [C08]
+//@ site soft-delete-rewrite-is-filtered
+//@   match call gorm.(*Statement).Build
+//@   in gorm.(SoftDeleteDeleteClause).ModifyStatement
+//@   min-sites 1
+//@   entry filterApplied == 0
+//@   assert filter-before-build: filterApplied == 1 [C08]
